@@ -146,9 +146,12 @@ CHECKS = {
               "are really compiled with -std=c17 -Wall -Werror=implicit-function-declaration; unsupported inputs must raise a Python exception before code is generated."),
         design="DESIGN.md §6 C19"),
     "C20": dict(
-        technique="Lean 4 proof (option merge precedence, CLI collection, complete template tables by decide) + correspondence + real ffcx runs compiled stand-alone",
-        text=("merge_precedence, cli_only_given, decl_defined, format_code_concat, sanitise_ident are proved (template/option tables regenerated from /repo); get_options/parse_args are compared with the model "
-              "on random option sources; generated .h/.c are compiled stand-alone, symbols checked with nm, kernels compared bitwise with the JIT path."),
+        technique="Lean 4 proof (option merge precedence, CLI collection; header/source consistency for every lexically self-contained filling of the regenerated template pairs, carried through format_code) + correspondence (recorded real template instantiations, IndexError cases) + real ffcx runs on fixed and seeded generated UFL files compiled stand-alone",
+        text=("merge_precedence, cli_only_given, decl_defined_templates (for every filling of the holes of the C template pairs — regenerated from the template strings and compared byte by byte — that satisfies the lexical obligations, each extern-declared name is defined "
+              "by the implementation instance), cli_header_source_consistent (format_code: header = declarations, source = implementations in the same block order, every declared name defined in the source text), format_code_concat with the IndexError branch, sanitise_ident "
+              "are proved; decl_defined_probes is a regression table. Every real template instantiation (probes and CLI runs) is recorded: the model's instance must equal the emitted text, the filling must meet the obligations, declaration and implementation must be filled "
+              "alike. get_options/parse_args/format_code are compared with the model on random inputs (ragged included); fixed and seeded generated .ufl files (cells × elements × integrals × names × file names × -n/-o/-i × scalar types × $PWD json) go through ffcx.main.main, "
+              "are compiled stand-alone, checked with nm, compared with the JIT path, and the numba output is imported and compared."),
         design="DESIGN.md §6 C20"),
 }
 
